@@ -47,6 +47,7 @@ type c14Model struct {
 	named *types.Named
 
 	fCtx, fCancel, fOut, fWG, fVisited, fDS *types.Var
+	fStop                                   *types.Var                  // completion channel (when there is no wait group)
 	fieldOwner                              map[*types.Var]*types.Named // the struct type declaring each role field
 
 	ctor, next, closeFn, walk *FuncInfo
@@ -200,7 +201,22 @@ func c14Load(p *core.Program) *c14Model {
 	}
 	m.fCtx = uniq("cancellable context (context.Context)", func(t types.Type) bool { return namedPath(t) == "context.Context" })
 	m.fCancel = uniq("cancel function (context.CancelFunc)", func(t types.Type) bool { return namedPath(t) == "context.CancelFunc" })
-	m.fWG = uniq("goroutine wait group (sync.WaitGroup)", func(t types.Type) bool { return namedPath(t) == "sync.WaitGroup" })
+	// completion carrier: how Close learns that the producer goroutine has finished. A sync.WaitGroup (Add/Done/Wait), or
+	// a channel (other than the output channel) that the producer closes as its last action and Close receives from
+	var wgs, chans []*types.Var
+	collect(st, named, func(t types.Type) bool { return namedPath(t) == "sync.WaitGroup" }, 0, &wgs)
+	collect(st, named, func(t types.Type) bool {
+		_, isChan := t.Underlying().(*types.Chan)
+		return isChan && !c14IsRelIDChan(t)
+	}, 0, &chans)
+	switch {
+	case len(wgs) == 1:
+		m.fWG = wgs[0]
+	case len(wgs) == 0 && len(chans) == 1:
+		m.fStop = chans[0]
+	default:
+		fail("ChildFirstOrdering field in the role \"completion of the producer goroutine (one sync.WaitGroup, or one channel besides the output channel)\" (found %d wait groups, %d channels)", len(wgs), len(chans))
+	}
 	m.fOut = uniq("output channel (chan osm.RelationID)", c14IsRelIDChan)
 	m.fVisited = uniq("visited set (map keyed by osm.RelationID)", func(t types.Type) bool {
 		mp, ok := t.Underlying().(*types.Map)
@@ -373,6 +389,10 @@ func c14Load(p *core.Program) *c14Model {
 	// the declared objects of the parameters (the signature's variables are the same objects as the declaration's)
 	m.eng = c14NewEng(p)
 	m.eng.noInline[m.walk.Obj] = true
+	m.eng.keepStruct[namedPath(named)] = true // the ordering's own fields are roles, not values
+	for _, owner := range m.fieldOwner {
+		m.eng.keepStruct[namedPath(owner)] = true
+	}
 
 	m.wg = m.eng.explore("dfs", m.eng.fnOfDecl(m.walk), nil, nil, nil)
 	m.cg = m.eng.explore("constructor", m.eng.fnOfDecl(m.ctor), nil, nil, nil)
